@@ -86,7 +86,11 @@ def canonicalize_metadata(
     for value in values:
         if isinstance(value, dict | list | tuple):
             value = canonicalize_metadata(value)
-        elif isinstance(value, int | float | str | np.ndarray) or value is None:
+        elif isinstance(value, np.ndarray):
+            # str() abbreviates arrays with more than 1000 entries and rounds
+            # the entries, so different arrays could be rendered identically
+            value = str((str(value.dtype), value.shape, value.tolist()))
+        elif isinstance(value, int | float | str) or value is None:
             value = str(value)
         elif hasattr(value, "ufl_signature"):
             value = value.ufl_signature
